@@ -13,8 +13,8 @@ open SST SST.FS SST.DBM SST.Proofs.FS
 
 /-- MAIN THEOREM — crash points × programs × configurations: for EVERY list of steps (client calls of both API
 flavours, valid and rejected; forced and size-triggered rotations; flush completions; compaction cycles with any
-table sizes; close; re-open with any options; each step with ANY list `junk` of contents its unfinished tables
-are seen to load as before their metadata is written — `drain`/`torn` are ignored by the synchronous WAL), and
+table sizes; close; re-open with any options; each step with ANY assignment `junk` of what a table directory shows
+while a `RemoveAll` has unlinked its metadata file first — `drain`/`torn` are ignored by the synchronous WAL), and
 EVERY number `n` of completed file-system calls: the directory image after the first `n` calls is a well-formed
 disk, `Open` succeeds on it, and the opened database holds exactly the reference map after all acknowledged steps
 (those whose calls are all among the first `n`), or after those plus the single step in flight.
@@ -77,20 +77,36 @@ theorem rejected_call_no_disk_effect (async : Bool) (d : Disk) (v : Vol) (a : AS
 
 /-! ### non-vacuity and sanity -/
 
-/-- a session with rotations, flushes (the first one seen to load as an empty and as a garbage table before its
-metadata is written), a delete, a compaction and a close: event counts per step -/
+/-- a session with rotations, flushes, a delete, a compaction (whose first input is seen as a legacy table while it
+is being removed) and a close: event counts per step -/
 example : (sessionFrom false {} {} [{ st := .reopen {threshold := 0, maxSize := 100} }, { st := .putS [1] [9] false },
-      { st := .putS [2] [8] true }, { st := .flush, junk := [[], [([1], some [7, 7]), ([5], some [5])]] },
-      { st := .delS [1] }, { st := .rotate }, { st := .flush }, { st := .compact [10, 10] }, { st := .putS [3] [3] false },
-      { st := .close }]).map (·.length) = [5, 2, 5, 6, 2, 3, 4, 12, 2, 8] := by decide
+      { st := .putS [2] [8] true }, { st := .flush }, { st := .delS [1] }, { st := .rotate }, { st := .flush },
+      { st := .compact [10, 10], junk := [(1, [([1], some [7, 7])])] }, { st := .putS [3] [3] false },
+      { st := .close }]).map (·.length) = [5, 2, 5, 6, 2, 3, 6, 13, 2, 10] := by decide
 
-/-- a crash image inside that first flush: the unfinished table loads (as garbage) and its WAL file is still there —
-well-formed, and the garbage is invisible -/
-def dJunk : Disk :=
-  { tables := [(1, .complete [([1], some [7, 7])])], walDir := true,
+/-- crash images inside a flush: (a) index.rio and data.rio have their headers, the metadata file does not exist yet —
+the directory loads as an EMPTY legacy table and recovery keeps it; (b) the metadata file exists and is empty, the
+other files may be complete — recovery discards the directory.  Both well-formed, both serve the logged values. -/
+def dLoadable : Disk :=
+  { tables := [(1, .complete [])], walDir := true,
     wal := [{ num := 0, recs := [.put [1] [9], .put [2] [8]] }, { num := 1 }] }
 
-example : DiskOk dJunk ∧ logical dJunk [1] = some [9] ∧ logical dJunk [2] = some [8] := by decide
+def dEmptyMeta : Disk := { dLoadable with tables := [(1, .part false)] }
+
+example : DiskOk dLoadable ∧ logical dLoadable [1] = some [9] ∧ logical dLoadable [2] = some [8] := by decide
+example : DiskOk dEmptyMeta ∧ logical dEmptyMeta [1] = some [9] ∧
+    (recover dLoadable).toOption.map (fun r => r.2.tables.map (·.gen)) = some [1, 2] ∧
+    (recover dEmptyMeta).toOption.map (fun r => r.2.tables.map (·.gen)) = some [1] := by decide
+
+/-- before commit 2cc0c75 a directory with an EMPTY metadata file and complete index / data files was loaded (as a
+legacy table with mis-parsed values, here `junk`) and kept for good; now it is discarded -/
+def dKeptJunk : Disk := { dLoadable with tables := [(1, .complete [([1], some [7, 7])])] }
+
+theorem prefix_unfinished_table_was_kept :
+    (recover dKeptJunk).toOption.map (fun r => (r.2.tables.map (·.gen), r.2.tables.head?.bind (fun t => t.cells.get [1]))) =
+      some ([1, 2], some (some [7, 7])) ∧
+    (recover dEmptyMeta).toOption.map (fun r => (r.2.tables.map (·.gen), r.2.tables.head?.bind (fun t => t.cells.get [1]))) =
+      some ([1], some (some [9])) := by decide
 
 /-- a disk with an unfinished newest table and the WAL file that still holds its records (crash inside a flush),
 a header-less newest WAL file (crash inside the rotation) — well-formed, recovers, and serves the logged value -/
